@@ -14,6 +14,8 @@ import (
 // C14 — Bits is the exact 256-bit binary expansion.
 
 type c14Case struct {
+	// Conc != 0: a concurrent batch (8 goroutines on objects they own) derived from this seed; other fields unused.
+	Conc uint64 `json:"concurrent_seed,omitempty"`
 	S     string          `json:"s"`
 	Class string          `json:"class"`
 	Move  *mon.ScalarMove `json:"move,omitempty"` // the object first holds Move.From, is observed, then is driven to S
@@ -39,6 +41,8 @@ func init() {
 }
 
 func c14Generate(c *mon.Ctx) {
+	concBatches(c, c.N(6, 300), func(seed uint64) any { return &c14Case{Conc: seed} })
+
 	n := oracle.N
 	emit := func(v *big.Int, class string) {
 		if v.Sign() < 0 || v.Cmp(n) >= 0 {
@@ -83,6 +87,11 @@ func c14Generate(c *mon.Ctx) {
 
 func c14Run(c *mon.Ctx, csAny any) {
 	cs := csAny.(*c14Case)
+
+	if cs.Conc != 0 {
+		c14RunConc(c, cs.Conc)
+		return
+	}
 	v := mon.BigH(cs.S)
 	s := mon.Scal(v)
 
